@@ -42,7 +42,12 @@ type Case struct {
 	Refuse    bool        `json:"refuse"`    // the last resume is refused (stream must be reported closed)
 	Redial    string      `json:"redial"`
 	Storage   string      `json:"storage"` // default | payload
+	// Neighbour: "" | "unreliable" | "partial": a second upstream of that QoS on the same connection (shared sent storage),
+	// writing a few points around the main stream's traffic and resumed with it at every reconnect
+	Neighbour string `json:"neighbour,omitempty"`
 }
+
+const neighbourSession = "session-c02-neighbour"
 
 const perCall = 8 * time.Second
 
@@ -97,6 +102,14 @@ func run(c Case) (*history, string, *ev.Failure) {
 	}
 	var held []heldChunk
 	b.OnChunk = func(inc *sim.Inc, up *sim.UpState, e *sim.Entry) {
+		if up != nil && up.Session == neighbourSession {
+			// acknowledged at once, outside the main stream's ack script (its batching must not see foreign chunks)
+			m := e.Msg.(*message.UpstreamChunk)
+			inc.Send(&message.UpstreamChunkAck{StreamIDAlias: m.StreamIDAlias, Results: []*message.UpstreamChunkResult{{
+				SequenceNumber: m.StreamChunk.SequenceNumber, ResultCode: message.ResultCodeSucceeded, ResultString: "OK"}},
+				DataIDAliases: map[uint32]*message.DataID{}})
+			return
+		}
 		mu.Lock()
 		ord := chunkOrd[inc.Index]
 		skip := withheld(ord)
@@ -110,6 +123,9 @@ func run(c Case) (*history, string, *ev.Failure) {
 		script.OnChunk(inc, up, e)
 	}
 	b.UpResumeResult = func(inc *sim.Inc, up *sim.UpState, attempt int) message.ResultCode {
+		if up != nil && up.Session == neighbourSession {
+			return message.ResultCodeSucceeded
+		}
 		mu.Lock()
 		defer mu.Unlock()
 		if conflicts > 0 {
@@ -126,6 +142,9 @@ func run(c Case) (*history, string, *ev.Failure) {
 		defer mu.Unlock()
 		cc := curCut()
 		if _, ok := e.Msg.(*message.UpstreamChunk); ok {
+			if e.Up != nil && e.Up.Session == neighbourSession {
+				return sim.Default // positions are counted on the main stream
+			}
 			chunkOrd[inc.Index]++
 			if cc != nil && (cc.Phase == "before-ack" || cc.Phase == "after-ack") && chunkOrd[inc.Index] == cc.N {
 				cutIdx++
@@ -192,6 +211,44 @@ func run(c Case) (*history, string, *ev.Failure) {
 		return nil, "", ev.Failf("harness", "open: %v", err)
 	}
 	h := &history{UpID: up.ID}
+	stopNb := make(chan struct{})
+	var nbwg sync.WaitGroup
+	if c.Neighbour != "" {
+		qos := message.QoSUnreliable
+		if c.Neighbour == "partial" {
+			qos = message.QoSPartial
+		}
+		var nb *iscp.Upstream
+		sim.Call(perCall, func() {
+			ctx, cancel := sim.Ctx(perCall)
+			defer cancel()
+			nb, _ = conn.OpenUpstream(ctx, neighbourSession, iscp.WithUpstreamQoS(qos), iscp.WithUpstreamFlushPolicyImmediately(), iscp.WithUpstreamCloseTimeout(300*time.Millisecond))
+		})
+		if nb != nil {
+			nbwg.Add(1)
+			go func() {
+				defer nbwg.Done()
+				defer sim.Call(perCall, func() {
+					ctx, cancel := sim.Ctx(time.Second)
+					defer cancel()
+					nb.Close(ctx)
+				})
+				for i := 0; ; i++ {
+					select {
+					case <-stopNb:
+						return
+					case <-time.After(4 * time.Millisecond):
+					}
+					ctx, cancel := sim.Ctx(200 * time.Millisecond)
+					nb.WriteDataPoints(ctx, &message.DataID{Name: "nb", Type: "t"}, &message.DataPoint{ElapsedTime: time.Duration(i), Payload: []byte("neighbour")})
+					cancel()
+				}
+			}()
+		}
+	}
+	var stopNbOnce sync.Once
+	stopNeighbour := func() { stopNbOnce.Do(func() { close(stopNb); nbwg.Wait() }) }
+	defer stopNeighbour()
 	// idle cuts fire from the harness side while writers run
 	stopIdle := make(chan struct{})
 	var iwg sync.WaitGroup
@@ -283,6 +340,7 @@ func run(c Case) (*history, string, *ev.Failure) {
 			script.OnChunk(hc.inc, hc.up, hc.e)
 		}
 	}
+	stopNeighbour() // its traffic would keep the broker from ever looking quiet
 	// "eventually": the connection is back and the broker acknowledges: wait for quiescence
 	deadline := time.Now().Add(6*time.Second + time.Duration(c.Conflicts)*time.Second)
 	for time.Now().Before(deadline) {
@@ -349,7 +407,7 @@ func run(c Case) (*history, string, *ev.Failure) {
 		}
 	}
 	h.Before, _, _ = rec.Snapshot()
-	h.Ledger = b.Ledger()
+	h.Ledger = withoutNeighbour(b.Ledger())
 	h.Resumed = rec.ResumedCount()
 	mu.Lock()
 	h.FiredCuts = fired
@@ -428,6 +486,62 @@ func summarize(h *history) any {
 		led = append(led[:150], led[len(led)-150:]...)
 	}
 	return map[string]any{"ledger": led, "write_errors": h.WriteErrs, "close_error": h.CloseErr, "closed_reported": h.Closed, "hook_chunks": len(h.Before), "resumed_events": h.Resumed}
+}
+
+// withoutNeighbour removes the neighbour stream's own exchange from the ledger: the oracle judges the main stream.
+func withoutNeighbour(led []*sim.Entry) []*sim.Entry {
+	reqs := map[message.RequestID]bool{}
+	var nbID [16]byte
+	haveID := false
+	alias := map[int]uint32{} // neighbour's stream alias per connection
+	var out []*sim.Entry
+	for _, e := range led {
+		drop := false
+		switch m := e.Msg.(type) {
+		case *message.UpstreamOpenRequest:
+			if m.SessionID == neighbourSession {
+				reqs[m.RequestID] = true
+				drop = true
+			}
+		case *message.UpstreamOpenResponse:
+			if reqs[m.RequestID] {
+				nbID, haveID = m.AssignedStreamID, true
+				alias[e.Inc] = m.AssignedStreamIDAlias
+				drop = true
+			}
+		case *message.UpstreamResumeRequest:
+			if haveID && m.StreamID == nbID {
+				reqs[m.RequestID] = true
+				drop = true
+			}
+		case *message.UpstreamResumeResponse:
+			if reqs[m.RequestID] {
+				alias[e.Inc] = m.AssignedStreamIDAlias
+				drop = true
+			}
+		case *message.UpstreamChunk:
+			if e.Up != nil && e.Up.Session == neighbourSession {
+				drop = true
+			}
+		case *message.UpstreamChunkAck:
+			if a, ok := alias[e.Inc]; ok && a == m.StreamIDAlias {
+				drop = true
+			}
+		case *message.UpstreamCloseRequest:
+			if haveID && m.StreamID == nbID {
+				reqs[m.RequestID] = true
+				drop = true
+			}
+		case *message.UpstreamCloseResponse:
+			if reqs[m.RequestID] {
+				drop = true
+			}
+		}
+		if !drop {
+			out = append(out, e)
+		}
+	}
+	return out
 }
 
 func pointsOfHook(bc iscp.UpstreamChunk) []sim.Point {
@@ -666,6 +780,7 @@ func gen(t *rapid.T) Case {
 		c.Conflicts = rapid.IntRange(1, 2).Draw(t, "conflicts")
 	}
 	c.Refuse = rapid.IntRange(0, 9).Draw(t, "refuse") == 0
+	c.Neighbour = rapid.SampledFrom([]string{"", "", "unreliable", "partial"}).Draw(t, "neighbour")
 	return c
 }
 
